@@ -186,7 +186,7 @@ Proof.
 Qed.
 Lemma orel_chain cs cs' n : Forall2 ceq cs cs' -> orel ceq (chain_ctor cs n) (chain_ctor cs' n).
 Proof.
-  intros HF. pose proof (Forall2_ceq_shapes _ _ HF) as Hm. unfold chain_ctor.
+  intros HF. pose proof (Forall2_ceq_shapes _ _ HF) as Hm. unfold chain_ctor, chain_ctor_gen.
   destruct HF as [|a b l l' Hab HF]; [exact I|]. rewrite <- Hm, <- (proj1 Hab).
   destruct (c_shape a) as [|d sh] eqn:Es; [exact I|]. destruct (position_of _ n); cbn [orel]; auto.
   destruct (negb _); cbn [orel]; auto. apply ceq_chain. constructor; assumption.
